@@ -93,3 +93,34 @@ Lemma tie_bytes_compare : TIE_bytes_compare =
    (2, "return(1)");
    (0, "return(ret)")].
 Proof. reflexivity. Qed.
+
+(* mtbl/source.c: mtbl_source_init *)
+Lemma tie_source_init : TIE_source_init =
+  [(0, "assert(source_iter!=NULL)");
+   (0, "assert(source_get!=NULL)");
+   (0, "assert(source_get_prefix!=NULL)");
+   (0, "assert(source_get_range!=NULL)");
+   (0, "structmtbl_source*s=my_calloc(1,sizeof(*s))");
+   (0, "s->source_iter=source_iter");
+   (0, "s->source_get=source_get");
+   (0, "s->source_get_prefix=source_get_prefix");
+   (0, "s->source_get_range=source_get_range");
+   (0, "s->source_free=source_free");
+   (0, "s->clos=clos");
+   (0, "return(s)")].
+Proof. reflexivity. Qed.
+
+(* mtbl/source.c: mtbl_source_get *)
+Lemma tie_source_get : TIE_source_get =
+  [(0, "return(s->source_get(s->clos,key,len_key))")].
+Proof. reflexivity. Qed.
+
+(* mtbl/source.c: mtbl_source_get_prefix *)
+Lemma tie_source_get_prefix : TIE_source_get_prefix =
+  [(0, "return(s->source_get_prefix(s->clos,key,len_key))")].
+Proof. reflexivity. Qed.
+
+(* mtbl/source.c: mtbl_source_get_range *)
+Lemma tie_source_get_range : TIE_source_get_range =
+  [(0, "return(s->source_get_range(s->clos,key0,len_key0,key1,len_key1))")].
+Proof. reflexivity. Qed.
